@@ -1,6 +1,6 @@
 //! (e) Pearson correlation coefficients: cov / (sigma sigma), upper-triangle order.
 
-use crate::bound::{agrees, Ctx, B, U32, U64};
+use crate::bound::{agrees, near, Ctx, B, U32, U64};
 use linfa::dataset::DatasetBase;
 use linfa::Float;
 use ndarray::Array2;
@@ -107,7 +107,7 @@ fn run<F: Float>(c: &CorrCase, ctx: Ctx, obs: &mut Obs) {
             if g2.len() == got.len() {
                 for k in 0..got.len() {
                     let (a, b) = (f64_of(g2[k]), f64_of(got[k]));
-                    obs.ensure((a - b).abs() <= 2.0 * want[k].tol(ctx), "perm:pearson", || {
+                    obs.ensure(near(a, b, 2.0 * want[k].tol(ctx)), "perm:pearson", || {
                         format!("coefficient {k} changed under a permutation of the observations: {a} vs {b}")
                     });
                 }
